@@ -41,7 +41,7 @@ checks = {
    text="Symbolic execution (concrete structure, forked opcode programs) of duct's combinators: every well-typed program of up to 5 steps (7 thorough) over a ladder of element types is built with the real generic functions and visited by a recording visitor; the trace is compared with a specification interpreter that keeps an explicit stack of open contexts; second harness: the visitor fails at every callback position. Everything is concrete, so assertions are decided by evaluation of the real code in the interpreter (no solver query is needed): this is exhaustive enumeration of programs within the bound through the SSA interpreter, the weakest use of the technique in this suite.",
    technique="symbolic execution of go/ssa with forked program shapes (assertions decided by term normalisation)", ref="DESIGN.md §5 C16"),
  "C01": dict(level="other",
-   text="Bounded symbolic execution of hseq.New/unfold + optics.NewLens/NewReflector/ForProduct1..9/ForSpectrum1..9 (real code incl. the unsafe pointer arithmetic, interpreted by a byte-offset memory model over go/types gc/amd64 layouts) on a corpus of 5 struct shapes plus a nine-type struct for the arities: every focusable field, by name and by type, Lens and Reflector; struct content between guard words and put values fully symbolic; Get/Put compared leaf by leaf with ordinary selectors (GetPut, PutGet, PutPut, same pointer). Shapes are a fixed corpus; values are universally quantified (mostly decided by term identity, see evidence).",
+   text="Bounded symbolic execution of hseq.New/unfold + optics.NewLens/NewReflector/ForProduct1..9/ForSpectrum1..9 (real code incl. the unsafe pointer arithmetic, interpreted by a byte-offset memory model over go/types gc/amd64 layouts) on a corpus of 5 struct shapes plus a nine-type struct for the arities: every focusable field, by name and by type, Lens and Reflector; struct content between guard words and put values fully symbolic; Get/Put compared leaf by leaf with ordinary selectors (GetPut, PutGet, PutPut, same pointer). Shapes are a fixed corpus plus one depth-3 embedding skeleton in LAYOUT-SYMBOLIC mode (leaf sizes and alignments are solver variables, offsets are the terms the Go layout rule yields, and the unsafe address must be proved equal to the focus offset under every layout); values are universally quantified (mostly decided by term identity, see evidence).",
    technique="symbolic execution of go/ssa with reflect/unsafe memory model + SMT",
    ref="DESIGN.md §5 C01"),
  "C02": dict(level="other",
@@ -49,7 +49,7 @@ checks = {
    technique="symbolic execution of go/ssa with reflect/unsafe memory model + SMT",
    ref="DESIGN.md §5 C02"),
  "C03": dict(level="other",
-   text="Symbolic execution of hseq.New/unfold/ForType/ForName/ForNameMaybe/New1..9/FMap/FMap1..9 over 8 corpus shapes against hand-written listings with compiler offsets (unsafe.Offsetof sums); FMapN pairing via uninterpreted functions. Structure is concrete (corpus); the reflect layer is a model over go/types.",
+   text="Symbolic execution of hseq.New/unfold/ForType/ForName/ForNameMaybe/New1..9/FMap/FMap1..9 over 8 corpus shapes against hand-written listings with compiler offsets (unsafe.Offsetof sums); FMapN pairing via uninterpreted functions. Structure is concrete (corpus), plus one embedding skeleton in layout-symbolic mode where RootOffs+Offset is compared with selector-derived offsets as terms over symbolic sizes/alignments; the reflect layer is a model over go/types.",
    technique="symbolic execution of go/ssa with reflect model + SMT",
    ref="DESIGN.md §5 C03"),
  "C04": dict(level="other",
